@@ -227,11 +227,16 @@ func runC09(t *Trace, r *Rng, tier string, _ []string) {
 						f.AddNumericRange("low", nil, &lo)
 						f.AddNumericRange("mid", &lo, &hi)
 						f.AddNumericRange("midhi", &mid, nil)
+						// cumulative tiers: two ranges open below and two open above
+						f.AddNumericRange("lt-mid", nil, &mid)
+						f.AddNumericRange("ge-hi", &hi, nil)
 						req.AddFacet(fn, f)
 					case "fwhen":
 						f := bleve.NewFacetRequest("when", facetSizes[i])
 						f.AddDateTimeRange("early", time.Time{}, base.Add(4*time.Hour))
 						f.AddDateTimeRange("late", base.Add(4*time.Hour), time.Time{})
+						f.AddDateTimeRange("very-early", time.Time{}, base.Add(2*time.Hour))
+						f.AddDateTimeRange("very-late", base.Add(5*time.Hour), time.Time{})
 						req.AddFacet(fn, f)
 					}
 				}
